@@ -1,7 +1,8 @@
 """C19 — runs leave inputs untouched, scratch space empty, and do not interfere.
 
 Histories: mapping runs (run_mapping) sharing scratch and output directories (success after success, after
-failure, stale files under every temporary-name pattern, obsm, log of an earlier run), the same WITHOUT a scratch
+failure -- invalid input, a worker that exits or raises while its siblings are still at work --, stale files
+under every temporary-name pattern, obsm, log of an earlier run), the same WITHOUT a scratch
 directory (tmp_dir=None: result buffer in extended_result_dir = the output directory / another directory / the
 system temporary directory; TMPDIR and the working directory are inside the sandbox and observed), concurrent
 pairs, the three preparatory stages, and the type-assignment stage called DIRECTLY with a results_output_path
@@ -232,7 +233,9 @@ def overlay_rec(rec, decl):
 
 # ------------------------------------------------------------------ the checks on one traced run
 def f9_only(new_in_scratch, scratch):
-    """True iff everything left under scratch sits in top-level result_buffer_* directories."""
+    """True iff everything left under scratch sits in top-level result_buffer_* directories.
+    (The classes F9 / F9c / F9d name what run_mapping left behind before it was repaired -- known_findings.json,
+    kind "fixed": nothing is suppressed; a failing mapping run is held to the same rule as a successful one.)"""
     if not new_in_scratch:
         return False
     for p in new_in_scratch:
@@ -597,6 +600,13 @@ def history_mapping(ctx, k):
         (mapping_job('noscratch-fail-invalid-input', shared, src, 'n4', no_scratch='out',
                      break_input=rng.choice(fail_kinds), **kw), H + 'failing-run', False),
         (mapping_job('noscratch-after-failure', shared, src, 'n5', no_scratch=rng.choice(['out', 'none', 'tmp']), **kw),
+         H + 'success-after-failure', True),
+        # a worker dies at once (no delay: its siblings may still be writing into the result buffer -- which then
+        # also holds the query-marker cache -- while run_mapping's finally block removes it)
+        (mapping_job('noscratch-fail-worker-exit', shared, src, 'n6', no_scratch=rng.choice(['out', 'none', 'tmp']),
+                     fault={'how': rng.choice(['exit', 'raise']), 'code': 3, 'r0': bad_r0}, **kw),
+         H + 'failing-run-worker', False),
+        (mapping_job('noscratch-after-worker-failure', shared, src, 'n7', no_scratch=rng.choice(['out', 'none', 'tmp']), **kw),
          H + 'success-after-failure', True),
     ]
     recs = run_batches(ctx, [[j for j, _, _ in jobs]], f'seq{k}')[0]
